@@ -32,6 +32,8 @@ POOL = [
     [], [1], [1.0], [True], [1, 2], [2, 1], [[1]], [[True]], [None], ["a"], [{"k": 1}], [{"k": True}], [0], [False], [[]],
     {}, {"k": 1}, {"k": True}, {"k": 1.0}, {"k": 1, "j": 2}, {"j": 2, "k": 1}, {"k": [1]}, {"k": [True]}, {"k": None}, {"j": 1},
     {"k": {"z": 0}}, {"k": {"z": False}}, {"k": 0}, {"k": False},
+    # containers that differ in two places, one of them a boolean facing a number
+    [6, True], [5, 1], [5, True], {"a": 0, "b": True}, {"a": 1, "b": 1}, [[2], False], [[3], 0], [True, 6], [1, 5],
 ]
 OPS = ["==", "!=", "<", "<=", ">", ">="]
 
@@ -197,6 +199,32 @@ def run_shard(spec, rec):
                         if got != want:
                             rec.violation("cmp:nested-call int %s int" % op, {"query": query, "document": jsonable(child), "op": op,
                                                                               "expected_selected": [list(l) for l in want], "observed": jsonable(got)})
+    # sequences: an unequal pair of containers is compared first, then - in the same evaluation - a pair of equal ones (and the
+    # other way round): every child gets the table's answer whatever was compared before it
+    if spec["shard"] < 4:
+        firsts = [([6, True], [5, 1]), ([5, 1], [6, True]), ({"a": 0, "b": True}, {"a": 1, "b": 1}), ([[2], False], [[3], 0]), ([1, [2, 3]], [1, [2]]), ({"a": 1}, {"b": 1}),
+                  ([True, 6], [1, 5]), ([1, 2, 3], [1, 2]), ({"k": [1, {"z": False}]}, {"k": [2, {"z": 0}]}), ([0, 0, False], [1, 1, 0])]
+        seconds = [([1, 2], [1, 2]), ({"a": [1]}, {"a": [1]}), ([[5], [6]], [[5], [6]]), ({"x": {"y": 1}, "z": 2}, {"z": 2, "x": {"y": 1}}), ([True, 1], [True, 1]), ([], []), ({}, {})]
+        n_seq = 0
+        for fi, (fl, fr) in enumerate(firsts):
+            for si, (sl, sr) in enumerate(seconds):
+                for op in ("==", "!=", "<=", ">="):
+                    n_seq += 1
+                    if n_seq % 4 != spec["shard"]:
+                        continue
+                    for order in (0, 1):
+                        kids = [{"l": D.deep_copy(fl), "r": D.deep_copy(fr)}, {"l": D.deep_copy(sl), "r": D.deep_copy(sr)}]
+                        if order:
+                            kids.reverse()
+                        want = [(i,) for i, k in enumerate(kids) if sem.compare(op, k["l"], k["r"])]
+                        query = "$[?@.l %s @.r]" % op
+                        o = mon.observe(jp.find, query, kids)
+                        rec.monitor("M-find")
+                        rec.case(("sequence", fi, si, op, order), True)
+                        rec.feat("comparison-sequences")
+                        got = [tuple(n.location) for n in o[1]] if o[0] == "ok" else mon.describe_outcome(o)
+                        if got != want:
+                            rec.violation("cmp:sequence-of-comparisons", {"query": query, "document": jsonable(kids), "op": op, "expected_selected": [list(l) for l in want], "observed": jsonable(got)})
     # deep comparands evaluated from a band of call-stack depths up to the recursion limit: the table's answer, or the
     # evaluation runs out of stack - never another answer
     if spec["shard"] < 4:
